@@ -22,6 +22,10 @@ import (
 // probability 2^-128); a sender that accepts has outputs that break the
 // correlation in every row of S.
 func c15Causal(cs *vrt.Case, r *vrt.Rng) {
+	if r.Bool() {
+		c15CausalCheckRows(cs, r)
+		return
+	}
 	n1 := vrt.Pick(r, []int{8, 64, 100, 600})
 	n2 := vrt.Pick(r, []int{200, 513, 600, 1100})
 	b1, b2 := choiceVec(r, n1, 4), choiceVec(r, n2, 4)
@@ -206,4 +210,138 @@ func zeroSubset(v []ot.Label) []int {
 		}
 	}
 	return nil
+}
+
+// c15CausalCheckRows: a second causal strategy, within one batch. The tamperer
+// flips one bit of the payload matrix blindly (a Delta-selected column, row j).
+// Should a label cross the wire before the 256-row check matrix (a challenge
+// disclosed too early), it takes the latest one for the challenge seed,
+// regenerates the coefficients, solves over GF(2) for a set S of check rows
+// whose coefficients XOR to the coefficient of row j, and flips the same column
+// in those check rows: the two errors cancel in the sender's sum. When the
+// challenge is only sent after the check matrix - as it must be - nothing is
+// known at that point, the blind flip stands alone and the sender has to abort.
+func c15CausalCheckRows(cs *vrt.Case, r *vrt.Rng) {
+	n := vrt.Pick(r, []int{8, 64, 100, 513, 600})
+	b := choiceVec(r, n, 4)
+	delta := ot.Label{D0: r.U64(), D1: r.U64()}
+	col := r.Intn(128)
+	delta.SetBit(col, 1)
+	row := r.Intn(n)
+	nPay := (n + 511) / 512
+	desc := map[string]any{"kind": "causal adaptive tamperer: blind payload flip cancelled in the check rows if a challenge was disclosed before them", "n": n, "column": col, "row": row}
+	cs.SetSample(desc)
+	var seen []ot.Label
+	used := 0
+	hits := 0
+	o := c15Run(r, n, b, delta, func(k int, chunk []byte) {
+		br := len(chunk) / 128
+		if k < nPay {
+			if row >= k*512 && row < k*512+512 {
+				rw := row - k*512
+				chunk[col*br+rw/8] ^= 1 << uint(rw%8)
+				hits++
+			}
+			return
+		}
+		if k != nPay || len(seen) == 0 {
+			return
+		}
+		st := ctrStream(seen[len(seen)-1])
+		next := func() ot.Label {
+			var buf [16]byte
+			st.XORKeyStream(buf[:], buf[:])
+			var l ot.Label
+			l.SetBytes(buf[:])
+			return l
+		}
+		var target ot.Label
+		for i := 0; i < n; i++ {
+			c := next()
+			if i == row {
+				target = c
+			}
+		}
+		chk := make([]ot.Label, 256)
+		for i := range chk {
+			chk[i] = next()
+		}
+		for _, rw := range solveSubset(chk, target) {
+			chunk[col*br+rw/8] ^= 1 << uint(rw%8)
+			used++
+		}
+	}, func(k int, l *ot.Label) { seen = append(seen, *l) })
+	cs.Evals++
+	cs.Count("causal_check_row_trials", 1)
+	if o.pan != nil {
+		c15Panic(cs, o.pan, desc)
+		return
+	}
+	if hits != 1 {
+		cs.Inconc("blind flip did not land")
+		return
+	}
+	cs.Key("causal-check", fmt.Sprint(n, col, row, used))
+	if used > 0 {
+		cs.Count("challenges_visible_before_the_check_matrix", 1)
+	}
+	if o.serr != nil {
+		cs.Count("aborted", 1)
+		return
+	}
+	if ok, i := correlationHolds(&o, b, delta); !ok {
+		cs.Violate("C15|silent-inconsistent|causal-check-rows", fmt.Sprintf("sender accepted a payload flip at (column %d, row %d) that a causal tamperer cancelled in %d check rows computed from a challenge seed disclosed before the check matrix; position %d breaks the correlation (n=%d)", col, row, used, i, n),
+			map[string]any{"case": desc, "delta": delta.String()})
+		return
+	}
+	cs.Count("silent_consistent", 1)
+}
+
+// solveSubset returns indices S with XOR of vs[i], i in S, equal to target
+// (nil when target is outside the span).
+func solveSubset(vs []ot.Label, target ot.Label) []int {
+	type row struct {
+		vec ot.Label
+		set []uint64
+	}
+	words := (len(vs) + 63) / 64
+	var basis [128]*row
+	top := func(l ot.Label) int {
+		for i := 127; i >= 0; i-- {
+			if l.Bit(i) == 1 {
+				return i
+			}
+		}
+		return -1
+	}
+	reduce := func(cur *row) int {
+		for {
+			t := top(cur.vec)
+			if t < 0 || basis[t] == nil {
+				return t
+			}
+			cur.vec.Xor(basis[t].vec)
+			for w := range cur.set {
+				cur.set[w] ^= basis[t].set[w]
+			}
+		}
+	}
+	for j := range vs {
+		cur := &row{vec: vs[j], set: make([]uint64, words)}
+		cur.set[j/64] |= 1 << uint(j%64)
+		if t := reduce(cur); t >= 0 {
+			basis[t] = cur
+		}
+	}
+	cur := &row{vec: target, set: make([]uint64, words)}
+	if reduce(cur) >= 0 {
+		return nil
+	}
+	var out []int
+	for k := range vs {
+		if cur.set[k/64]>>uint(k%64)&1 == 1 {
+			out = append(out, k)
+		}
+	}
+	return out
 }
